@@ -251,8 +251,11 @@ def check_untyped_caches(run: Run, rule: str) -> None:
                     continue
                 n += 1
                 typed = isinstance(d, ast.Call) and any(k.arg == "typed" and isinstance(k.value, ast.Constant) and k.value.value is True for k in d.keywords)
-                params = [a.arg for a in fi.node.args.args if a.arg not in ("self", "cls")]  # type: ignore[attr-defined]
-                ok = typed or not params
+                pargs = [a for a in fi.node.args.args + fi.node.args.kwonlyargs if a.arg not in ("self", "cls")]  # type: ignore[attr-defined]
+                params = [a.arg for a in pargs]
+                # keys of one kind cannot collide: parameters annotated str / bytes / Path only
+                same_kind = bool(pargs) and all(a.annotation is not None and ast.unparse(a.annotation) in ("str", "bytes", "Path", "pathlib.Path", "str | None") for a in pargs)
+                ok = typed or not params or same_kind
                 run.instance(rule, m.loc(fi.node), f"{fi.qualname}: @{txt}", ok=ok)
                 if not ok:
                     run.violation(rule, m, fi.qualname, f"@{base.split('.')[-1]} without typed=True", f"{fi.qualname} is memoised with `@{txt}`: the cache key compares arguments by equality, so True, 1 and 1.0 (False, 0, 0.0) share one entry; after the float 1.0 has been seen the boolean true is answered with the float's result (and vice versa), depending on the order of calls in the process")
